@@ -200,6 +200,16 @@ def check_oracle_state(rng):
                 a, b = sorted(a), sorted(b)
             if json.dumps(a, sort_keys=True) != json.dumps(b, sort_keys=True):
                 return cfg["kind"], "oracle-state", "%s oracle: state field %s: %r became %r" % (cfg["kind"], k, str(a)[:120], str(b)[:120])
+        # ... and the live objects: what the restored oracle will act on, read from its attributes (two get_state outputs can
+        # agree on a field both of them leave out)
+        def live(x):
+            return dict(run_times={tid: x._run_times[tid] for tid in o.trials}, retry_queue=list(x._retry_queue), start_order=list(x.start_order),
+                        end_order=list(x.end_order), seed_state=x._seed_state, tried_so_far=sorted(x._tried_so_far),
+                        id_to_hash={tid: x._id_to_hash[tid] for tid in o.trials if tid in o._id_to_hash or tid in x._id_to_hash})
+        la, lb = live(o), live(o2)
+        for k in la:
+            if la[k] != lb[k]:
+                return cfg["kind"], "oracle-live-state", "%s oracle: after get_state -> JSON -> set_state the attribute %s is %r, was %r" % (cfg["kind"], k, str(lb[k])[:120], str(la[k])[:120])
         return cfg["kind"], None, None
     finally:
         shutil.rmtree(d, ignore_errors=True); shutil.rmtree(d2, ignore_errors=True)
